@@ -8,7 +8,7 @@ of netloc torture strings.
 ops per URL (all skipped for a string outside the model, see `outside_model`):
   parse_url(url)            model parseUrl vs real urlsplit + .username/.password/.hostname/.port
   parse_url(cleaned)        the same on what canonicalize_url hands to the parser
-  canonicalize_whole(...)   model cleaning -> parseUrl -> canonParts -> urlunsplit vs the real
+  canonicalize_whole(...)   model cleaning -> parseUrl -> canonSplit -> printSplit vs the real
                             canonicalize_url (tuple and string), ValueError included
   parse_url(real output)    the model parser on the printed result
   unsplit_both(tuple)       both models of urlunsplit on the real result tuple vs real urlunsplit
@@ -126,8 +126,9 @@ def _is_control(c):
 
 def puny_laws_failure(table):
     """PunyLaws (no_dot, stable) of Lemmas/Canonicalize.lean and PunyClean (the decoder brings
-    in no delimiter, '%', control or white-space character that its input did not hold) of
-    Lemmas/UrlRoundTrip.lean, on every label the real codec decoded for this case"""
+    in no delimiter, '%', control or white-space character that its input did not hold, and
+    decodes no label to the empty string) of Lemmas/CanonRoundTrip.lean, on every label the
+    real codec decoded for this case"""
     from ural.utils import attempt_to_decode_idna as puny
 
     for k, d in table.items():
@@ -139,6 +140,8 @@ def puny_laws_failure(table):
         for c in d:
             if (c in "/?#@:[]%" or _is_control(c) or c.isspace()) and c not in k:
                 return "PunyClean fails for the real codec: %r -> %r brings in %r" % (k, d, c)
+        if k and not d:
+            return "PunyClean.nonempty fails for the real codec: %r -> ''" % (k,)
     return None
 
 
